@@ -91,12 +91,12 @@ func c06r1(r *R) {
 	cnt := 0
 	for _, fn := range r.modFuncs() {
 		for _, c := range calls(fn, nameIs("(net/http.Header).Set", "(net/http.Header).Add")) {
-			k, _ := constString(c.Common().Args[1])
+			k, _ := constString(refArgs(c.Common())[1])
 			if k != "Proxy-Authorization" {
 				continue
 			}
 			cnt++
-			v := describe(c.Common().Args[2])
+			v := describe(refArgs(c.Common())[2])
 			r.check(!strings.Contains(v, `"Proxy-Authorization")`), fname(fn)+"#value-not-from-client", c.Pos(), "value does not derive from a received Proxy-Authorization", "Proxy-Authorization is re-added from the value the client sent: "+v)
 		}
 	}
@@ -133,7 +133,7 @@ func c06r2(r *R) {
 			case *ssa.Call:
 				switch calleeName(x.Common()) {
 				case "(net/http.Header).Set", "(net/http.Header).Add":
-					key, _ = constString(x.Common().Args[1])
+					key, _ = constString(refArgs(x.Common())[1])
 				case "(*net/http.Request).SetBasicAuth":
 					key = "Authorization"
 				}
@@ -159,10 +159,10 @@ func c06r2(r *R) {
 	// dialvia: value from the proxy URL's userinfo, on the request written to the proxy connection
 	dl := r.method("dialvia", "HTTPProxyDialer", "DialContextR")
 	for _, c := range calls(dl, nameIs("(net/http.Header).Add")) {
-		if k, _ := constString(c.Common().Args[1]); k != "Proxy-Authorization" {
+		if k, _ := constString(refArgs(c.Common())[1]); k != "Proxy-Authorization" {
 			continue
 		}
-		v := describe(c.Common().Args[2])
+		v := describe(refArgs(c.Common())[2])
 		good := strings.Contains(v, "(*net/url.Userinfo).Username($0.proxyURL.User)") && strings.Contains(v, "(*net/url.Userinfo).Password($0.proxyURL.User)#0") &&
 			guardedBy(c.Block(), eq("($0.proxyURL.User != nil)"))
 		r.check(good, "DialContextR#proxy-credentials", c.Pos(), "Basic credentials of the proxy URL, only when it has userinfo", "Proxy-Authorization for the upstream CONNECT is "+v)
